@@ -119,6 +119,7 @@ class Effects:
         self.direct: Dict[str, List[Mut]] = {}
         self.summary: Dict[str, List[Mut]] = {}
         self.unknown_roots: List[str] = []
+        self.edges: Dict[str, list] = {}
         self._classify()
         self._compute()
 
@@ -337,6 +338,7 @@ class Effects:
                 for callee, binding, how in self._callee_bindings(fi, fa, c):
                     lst.append((c, callee, binding, how))
             edges[fi.qual] = lst
+        self.edges = edges
         changed = True
         rounds = 0
         while changed and rounds < 30:
@@ -412,3 +414,23 @@ if __name__ == "__main__":
             print(q)
             for x in ms:
                 print("   ", loc_show(x.loc), "|", x.kind, "|", getattr(x.stmt, "lineno", "?"), "|", x.via[:120])
+
+
+def reachable_from(eff: Effects, roots: List[FuncInfo]) -> List[FuncInfo]:
+    """functions reachable through resolved calls (incl. visitor dispatch, constructors, nested defs)."""
+    m = eff.model
+    seen: Dict[str, FuncInfo] = {}
+    st = list(roots)
+    while st:
+        f = st.pop()
+        if f.qual in seen:
+            continue
+        seen[f.qual] = f
+        for _c, callee, _b, _how in eff.edges.get(f.qual, []):
+            if callee is not None and callee.qual not in seen:
+                st.append(callee)
+        # nested functions / classes defined inside f are part of its behaviour
+        for g in m.funcs.values():
+            if g.parent_func is f and g.qual not in seen:
+                st.append(g)
+    return list(seen.values())
